@@ -101,6 +101,31 @@ CHECKS = {
        "noregpool+nocontpool, noquotas, safepool; every build must conform to the specification's expected events/results/errors and agree with the default build",
   note="the pool life-cycle model (Pools.tla) of DESIGN.md is not built; detection relies on observable differences on the corpus",
   technique="TLA+ program generators as the oracle; six build variants replayed and judged against the same spec behaviour (direction A, relational)"),
+ "C02": dict(
+  level="model_checking", ref="4, 5 C02 and notes/C02.md",
+  text="LuaNum.tla models Lua numbers exactly on base-256 limbs (spec/lib/BigInt.tla): int64 wrap-around arithmetic, floor division and modulo, bitwise operators and shifts, "
+       "doubles as exact dyadic values with IEEE round-to-nearest-even, mathematically exact mixed comparison, conversions (tointeger, float->int only for exact values), "
+       "numeral and string->number denotation. TLC asserts ~30 algebraic laws on the model (trichotomy, le = lt or eq, a = (a//b)*b + a%b, shifts vs multiplication) and "
+       "emits the expected result of every operator on all ordered pairs of a boundary lattice (59 / 122 values), a string lattice, all numeral strings up to length 4 / 5 and "
+       "seeded random operands; every determined result is compared bit-exactly with golua, with operands as literals and as runtime values",
+  note="^ is checked by subtype only; float %, fmod and // only where determined; subnormals, NaN payloads and transcendental functions are not compared; open findings C02-1/2/3/5",
+  technique="TLA+ specs LuaNum.tla + BigInt.tla evaluated by TLC over a lattice, laws checked on the spec, tabular comparison with the real runtime (direction A)"),
+ "C16": dict(
+  level="model_checking", ref="5 C16 and notes/C16.md",
+  text="NumFor.tla states the numeric for loop in two layers (the manual's progression with exact comparison against the unclipped limit, and the clipped-limit form with "
+       "precomputed iteration count) which TLC asserts equal, on top of LuaNum.tla; the first 4 values (kind and exact value) or the error of every (start, limit, step) triple "
+       "from a boundary lattice (13x12x13 / 27x29x28) are compared with the real loop, operands as literals and as runtime values, under a watchdog (a hang is a violation)",
+  note="numeric strings as control values and NaN in float loops are not compared (manual and reference implementation disagree); open findings C16-1/2/3",
+  technique="TLA+ spec NumFor.tla over LuaNum.tla, TLC exhaustive over the lattice, expected sequences compared with the real loop (direction A)"),
+ "C17": dict(
+  level="model_checking", ref="5 C17 and notes/C17.md",
+  text="Pack.tla (string.pack format reader: endianness, !n alignment with the power-of-2 rule, Xop, every option incl. i/I 1..16, s[n], z, cn, floats, on 64-bit integers as "
+       "base-256 limbs) is evaluated by TLC, which checks on the spec Unpack(f, Pack(f, vs)) = vs with next position and PackSize = length, and emits every case; the real "
+       "pack/unpack/packsize are compared byte for byte, value, position, size, error vs no error. Quote.tla: TLC checks Denote(Quote(s)) = s; the real %q output must load back "
+       "to the identical value and, in a second TLC pass over the observed texts, denote the value under the spec's own lexer. Printf.tla: C-printf text of %d %i %u %x %X %o %c %s "
+       "with flags, widths and precisions compared exactly. tonumber(tostring(n)) == n is checked as a law on a lattice supplied by the spec",
+  note="bounded formats (<= 2-4 tokens) and strings; native sizes are measured and passed to the spec; the %q text itself, float directives and error messages are not compared; open findings C17-1..14",
+  technique="TLA+ specs Pack.tla, Quote.tla, Printf.tla over Limbs.tla; TLC exhaustive enumeration with laws on the spec; tabular comparison with the real library; second TLC pass over observed %q texts (direction B)"),
 }
 NOT_YET = {}
 
